@@ -10,19 +10,22 @@
 (*                                                                         *)
 (*   {"k":"new","first":s,"tabs":[kp0,kp1,kp2]}                            *)
 (*   {"k":"step","a":{a,n,g,m},"verdict":..,"r":{out,trig,err},"hash":..,  *)
-(*    "prod":[{m,own,an}],"panic":..,"missing":..,"bad":[..],"tabs":[..]}  *)
+(*    "prod":[{m,own,an}],"panic":..,"missing":..,"bad":[..],"badkeys":[..]*)
+(*    ,"tabs":[..]}                                                        *)
 (*   {"k":"end","pending":n,"judge":[{id,per:[{has,fp,dec}]}],"bad":[..],  *)
-(*    "tabs":[..]}                                                         *)
+(*    "badkeys":[..],"tabs":[..]}                                          *)
 (* tabs[k+1] = the projection of keyper k's database and in-memory field   *)
-(* (GnosisE2E.tla: s, sy, sh, ky, sg; sets as sorted lists); bad = rows    *)
-(* the projection could not explain (a share / key that does not verify,   *)
-(* an unknown identity, a queue row that is not the block's transaction).  *)
+(* (GnosisE2E.tla: s, sy, sh, ky, sg; sets as sorted lists); badkeys = a   *)
+(* stored share / key that does not verify or is not the epoch key; bad =  *)
+(* other rows the projection could not explain (an unknown identity, a     *)
+(* queue row that is not the block's transaction, a row of another eon).   *)
 (* The chain is an INPUT (the harness mines what the behaviour says); it   *)
 (* is rebuilt here from the mine / reorg actions.                          *)
 (*                                                                         *)
 (* Deterministic fold, one TLC state per line.                             *)
 (*   pass A  viol : monitors of GnosisE2EProps that are false on the       *)
 (*                  OBSERVED step / end of slot / final judgement          *)
+(*           obsv : observations that are not verdicts (finding GNO-1)     *)
 (*   pass B  drift: the observed line is not what ApplyAct / Publish of    *)
 (*                  the composed code-shaped spec yield from the           *)
 (*                  previously OBSERVED tables                             *)
@@ -32,8 +35,8 @@ EXTENDS GnosisE2EProps, Json
 CONSTANT TraceFile
 Trace == ndJsonDeserialize(TraceFile)
 
-VARIABLES l, wo, g, nt, viol, drift
-tvars == <<l, wo, g, nt, viol, drift>>
+VARIABLES l, wo, g, nt, viol, drift, obsv
+tvars == <<l, wo, g, nt, viol, drift, obsv>>
 
 ObsKp(o) == [s |-> o.s,
              sy |-> [synced |-> o.sy.synced, stored |-> ToSet(o.sy.stored)],
@@ -46,7 +49,12 @@ PacketsObs(i, prod, k) ==
     ELSE (IF prod[k].own = "accept" THEN SetToBag({[m |-> prod[k].m, d |-> j] : j \in KeyperIdx \ {i}}) ELSE EmptyBag)
          (+) PacketsObs(i, prod, k + 1)
 
-TInit == l = 1 /\ wo = WorldInit(1) /\ g = GW0 /\ nt = EmptyBag /\ viol = {} /\ drift = {}
+(* rows the projection could not explain: a key / share that is not the correct one; any other row *)
+BadViol(line) ==
+    (IF line.badkeys = <<>> THEN {} ELSE {"X2_KeysCorrect"}) \cup
+    (IF line.bad = <<>> THEN {} ELSE {"X_TablesExplained"})
+
+TInit == l = 1 /\ wo = WorldInit(1) /\ g = GW0 /\ nt = EmptyBag /\ viol = {} /\ drift = {} /\ obsv = {}
 
 TNext ==
     /\ l <= Len(Trace) /\ l' = l + 1
@@ -55,12 +63,13 @@ TNext ==
               /\ wo' = [WorldInit(line.first) EXCEPT !.kp = ObsTabs(line)]
               /\ g' = GW0 /\ nt' = EmptyBag
               /\ drift' = drift \cup (IF ObsTabs(line) = WorldInit(line.first).kp THEN {} ELSE {l})
-              /\ UNCHANGED viol
+              /\ UNCHANGED <<viol, obsv>>
          [] line.k = "end" ->
               /\ viol' = viol \cup {<<l, m>> : m \in
                     (IF line.pending = 0 THEN EndViol(g, wo) ELSE {"X4_AllRelease"}) \cup JudgeViol(line.judge) \cup
-                    (IF line.bad = <<>> THEN {} ELSE {"X2_KeysCorrect"})}
+                    BadViol(line)}
               /\ drift' = drift \cup (IF nt = EmptyBag /\ ObsTabs(line) = wo.kp THEN {} ELSE {l})
+              /\ obsv' = obsv \cup {<<l, m>> : m \in (IF line.pending = 0 THEN EndObsv(g, wo) ELSE {})}
               /\ UNCHANGED <<wo, g, nt>>
          [] OTHER ->
               LET a    == line.a
@@ -75,12 +84,13 @@ TNext ==
               /\ viol' = viol \cup {<<l, m>> : m \in
                     StepViol(g, g1, wo, a, o, line.prod, w1) \cup
                     (IF line.panic = "" THEN {} ELSE {"X_NoPanic"}) \cup
-                    (IF line.bad = <<>> THEN {} ELSE {"X2_KeysCorrect"}) \cup
+                    BadViol(line) \cup
                     (IF a.a = "slot" /\ nt = EmptyBag THEN EndViol(g, wo) ELSE {})}
               /\ drift' = drift \cup (IF /\ inNet
                                          /\ x.w.kp = w1.kp
                                          /\ x.o = o
                                          /\ p.prod = line.prod THEN {} ELSE {l})
+              /\ obsv' = obsv \cup {<<l, m>> : m \in (IF a.a = "slot" /\ nt = EmptyBag THEN EndObsv(g, wo) ELSE {})}
               /\ wo' = w1
               /\ g' = g1
               /\ nt' = (IF a.a \in {"dlv", "drop"} /\ pk \in DOMAIN nt THEN nt (-) SetToBag({pk}) ELSE nt)
@@ -89,5 +99,5 @@ TNext ==
 TSpec == TInit /\ [][TNext]_tvars
 
 Done == l <= Len(Trace) \/
-        PrintT(<<"RESULT", ToJson([lines |-> Len(Trace), viol |-> SetToSeq(viol), drift |-> SetToSeq(drift)])>>)
+        PrintT(<<"RESULT", ToJson([lines |-> Len(Trace), viol |-> SetToSeq(viol), drift |-> SetToSeq(drift), obsv |-> SetToSeq(obsv)])>>)
 =============================================================================
